@@ -20,3 +20,5 @@ func raceRelease(p unsafe.Pointer)      { runtime.RaceRelease(p) }
 func raceReleaseMerge(p unsafe.Pointer) { runtime.RaceReleaseMerge(p) }
 func raceDisable()                      { runtime.RaceDisable() }
 func raceEnable()                       { runtime.RaceEnable() }
+func raceRead(p unsafe.Pointer)         { runtime.RaceRead(p) }
+func raceWrite(p unsafe.Pointer)        { runtime.RaceWrite(p) }
